@@ -270,6 +270,84 @@ class StageExtractor(object):
                 break
         return False
 
+    def keys_distinct(self, loop):
+        """dict stages: is the registration key distinct per worker by
+        construction?"""
+        if self.container is None or self.container[1] != 'dict':
+            return True
+        c = self.container[0]
+        key = None
+        for n in ast.walk(loop):
+            if isinstance(n, ast.Assign) and len(n.targets) == 1 \
+                    and isinstance(n.targets[0], ast.Subscript) \
+                    and is_name(n.targets[0].value, c):
+                sl = n.targets[0].slice
+                if not isinstance(sl, ast.Name):
+                    return False
+                if key is not None and key != sl.id:
+                    return False
+                key = sl.id
+        if key is None:
+            return False
+        # (a) the loop variable of `for key in range(...)`
+        if isinstance(loop, ast.For) and is_name(loop.target, key) \
+                and isinstance(loop.iter, ast.Call) \
+                and is_name(loop.iter.func, 'range'):
+            # nothing else re-binds it inside the loop
+            return not any(isinstance(n, ast.Assign) and any(
+                is_name(t, key) for t in n.targets) for n in ast.walk(loop))
+        # (b) chosen under `if x not in S:` and added to S before registering
+        added = [n.func.value.id for n in ast.walk(loop)
+                 if isinstance(n, ast.Call)
+                 and isinstance(n.func, ast.Attribute) and n.func.attr == 'add'
+                 and isinstance(n.func.value, ast.Name)
+                 and len(n.args) == 1 and is_name(n.args[0], key)]
+        guards = set(
+            n.test.comparators[0].id for n in ast.walk(loop)
+            if isinstance(n, ast.If) and isinstance(n.test, ast.Compare)
+            and len(n.test.ops) == 1
+            and isinstance(n.test.ops[0], ast.NotIn)
+            and isinstance(n.test.comparators[0], ast.Name))
+        cands = set(added) & guards
+        if len(cands) != 1:
+            return False
+        started = cands.pop()
+        guarded = set()
+        for n in ast.walk(loop):
+            if isinstance(n, ast.If) and isinstance(n.test, ast.Compare) \
+                    and len(n.test.ops) == 1 \
+                    and isinstance(n.test.ops[0], ast.NotIn) \
+                    and isinstance(n.test.left, ast.Name) \
+                    and is_name(n.test.comparators[0], started):
+                for m in n.body:
+                    for a in ast.walk(m):
+                        if isinstance(a, ast.Assign) and any(
+                                is_name(t, key) for t in a.targets) \
+                                and is_name(a.value, n.test.left.id):
+                            guarded.add(id(a))
+        assigns = [a for a in ast.walk(loop) if isinstance(a, ast.Assign)
+                   and any(is_name(t, key) for t in a.targets)]
+        if not assigns or any(id(a) not in guarded for a in assigns):
+            return False
+        # the add precedes the registration in source order
+        add_line = min(n.lineno for n in ast.walk(loop)
+                       if isinstance(n, ast.Call)
+                       and isinstance(n.func, ast.Attribute)
+                       and n.func.attr == 'add'
+                       and is_name(n.func.value, started))
+        reg_line = min(n.lineno for n in ast.walk(loop)
+                       if isinstance(n, ast.Assign)
+                       and isinstance(n.targets[0], ast.Subscript)
+                       and is_name(n.targets[0].value, c))
+        # and the set only ever grows
+        shrinks = any(isinstance(n, ast.Call)
+                      and isinstance(n.func, ast.Attribute)
+                      and n.func.attr in ('remove', 'discard', 'pop',
+                                          'clear')
+                      and is_name(n.func.value, started)
+                      for n in ast.walk(loop))
+        return add_line < reg_line and not shrinks
+
     def note_container(self, name, kind):
         if self.container is None:
             self.container = (name, kind)
@@ -572,11 +650,13 @@ class StageExtractor(object):
         why = None
         prog = []
         merge = 'unknown'
+        keys_distinct = False
         try:
             prog = self.func_prog(0)
             if self.container is None:
                 raise Unrecognised('no polled container found')
             merge = self.merge()
+            keys_distinct = self.keys_distinct(self._loop_and_after()[1])
         except Unrecognised as e:
             why = str(e)
             prog = []
@@ -585,7 +665,8 @@ class StageExtractor(object):
             prog = []
         kind = self.container[1] if self.container else 'list'
         return dict(name=self.spec['name'], container=kind, prog=prog,
-                    try_finally=self.try_finally, merge=merge, why=why)
+                    try_finally=self.try_finally, merge=merge, why=why,
+                    keys_distinct=keys_distinct)
 
 
 # ---------------------------------------------------------------------------
@@ -799,7 +880,9 @@ def render(stages, shape, sites=()):
         else:
             lines.append('    prog := []')
         lines.append('    tryFinally := %s' % lean_bool(st['try_finally']))
-        lines.append('    merge := .%s }' % st['merge'])
+        lines.append('    merge := .%s' % st['merge'])
+        lines.append('    keysDistinct := %s }'
+                     % lean_bool(st['keys_distinct']))
         lines.append('')
     lines.append('def stages : List Stage := [%s]' % ', '.join(
         st['name'] for st in stages))
@@ -859,8 +942,12 @@ def regenerate(repo, lean_dir):
     old = path.read_text() if path.is_file() else None
     changed = old != text
     if changed:
+        # atomically: another ./check may be building at the same moment
+        import os
         path.parent.mkdir(parents=True, exist_ok=True)
-        path.write_text(text)
+        tmp = path.with_name('.%s.%d.tmp' % (path.name, os.getpid()))
+        tmp.write_text(text)
+        os.replace(tmp, path)
     return changed, stages, shape
 
 
